@@ -1,0 +1,159 @@
+// SPDX-License-Identifier: MIT OR Apache-2.0
+
+//! Verification hooks (only compiled with `--cfg p2panda_p2panda_verif`).
+//!
+//! A [`Gossip`] instance backed by a *probe* manager actor instead of the real gossip overlay.
+//! The probe records every `Subscribe` / `Unsubscribe` request it receives and keeps the other
+//! ends of the channels it hands out, so a test harness can observe what handles publish and
+//! inject arbitrary bytes towards subscriptions.
+
+use std::collections::HashMap;
+use std::sync::{Arc, Mutex};
+
+use p2panda_core::Topic;
+use ractor::{Actor, ActorProcessingErr, ActorRef};
+use tokio::sync::{broadcast, mpsc};
+
+use crate::NodeId;
+use crate::address_book::AddressBook;
+use crate::address_book::verif::ToAddressBookActor;
+use crate::gossip::GossipConfig;
+use crate::gossip::actors::ToGossipManager;
+use crate::gossip::api::Gossip;
+
+/// What the probe manager saw, in order of arrival.
+#[derive(Clone, Debug, PartialEq, Eq)]
+pub enum ProbeEvent {
+    /// `Subscribe` request; the number is the per-topic generation (0, 1, ..).
+    Subscribe(Topic, usize),
+    Unsubscribe(Topic),
+}
+
+/// Channel ends of one subscription generation kept by the probe.
+pub struct ProbeChannels {
+    /// Receives what handles of this generation publish.
+    pub published_rx: mpsc::Receiver<Vec<u8>>,
+    /// Sends towards all subscriptions of this generation.
+    pub inject_tx: broadcast::Sender<Vec<u8>>,
+}
+
+#[derive(Default)]
+pub struct ProbeState {
+    pub events: Vec<ProbeEvent>,
+    pub channels: HashMap<Topic, Vec<ProbeChannels>>,
+    /// Capacity of the broadcast channel handed out on `Subscribe`.
+    pub broadcast_capacity: usize,
+}
+
+pub type Probe = Arc<Mutex<ProbeState>>;
+
+struct ProbeManager;
+
+impl Actor for ProbeManager {
+    type Msg = ToGossipManager;
+    type State = Probe;
+    type Arguments = Probe;
+
+    async fn pre_start(
+        &self,
+        _myself: ActorRef<Self::Msg>,
+        probe: Self::Arguments,
+    ) -> Result<Self::State, ActorProcessingErr> {
+        Ok(probe)
+    }
+
+    async fn handle(
+        &self,
+        _myself: ActorRef<Self::Msg>,
+        message: Self::Msg,
+        state: &mut Self::State,
+    ) -> Result<(), ActorProcessingErr> {
+        match message {
+            ToGossipManager::Subscribe(topic, _nodes, reply) => {
+                let mut probe = state.lock().expect("probe lock");
+                let capacity = probe.broadcast_capacity.max(1);
+                let (to_gossip_tx, to_gossip_rx) = mpsc::channel(128);
+                let (from_gossip_tx, _) = broadcast::channel(capacity);
+                let generations = probe.channels.entry(topic).or_default();
+                let generation = generations.len();
+                generations.push(ProbeChannels {
+                    published_rx: to_gossip_rx,
+                    inject_tx: from_gossip_tx.clone(),
+                });
+                probe.events.push(ProbeEvent::Subscribe(topic, generation));
+                let _ = reply.send((to_gossip_tx, from_gossip_tx));
+            }
+            ToGossipManager::Unsubscribe(topic) => {
+                let mut probe = state.lock().expect("probe lock");
+                probe.events.push(ProbeEvent::Unsubscribe(topic));
+            }
+            _ => {}
+        }
+        Ok(())
+    }
+}
+
+/// Address book stand-in which knows no nodes (answers `NodeInfosByTopics` with an empty list).
+struct ProbeAddressBook;
+
+impl Actor for ProbeAddressBook {
+    type Msg = ToAddressBookActor;
+    type State = ();
+    type Arguments = ();
+
+    async fn pre_start(
+        &self,
+        _myself: ActorRef<Self::Msg>,
+        _args: Self::Arguments,
+    ) -> Result<Self::State, ActorProcessingErr> {
+        Ok(())
+    }
+
+    async fn handle(
+        &self,
+        _myself: ActorRef<Self::Msg>,
+        message: Self::Msg,
+        _state: &mut Self::State,
+    ) -> Result<(), ActorProcessingErr> {
+        if let ToAddressBookActor::NodeInfosByTopics(_topics, reply) = message {
+            let _ = reply.send(Vec::new());
+        }
+        Ok(())
+    }
+}
+
+/// Creates a `Gossip` API instance whose manager is the probe actor and whose address book is an
+/// empty stand-in, both spawned on the *current* tokio runtime (no extra threads), so a
+/// current-thread runtime makes every step deterministic.
+pub async fn probe_gossip_local(
+    my_node_id: NodeId,
+    config: GossipConfig,
+    broadcast_capacity: usize,
+) -> (Gossip, Probe) {
+    let (actor_ref, _) = Actor::spawn(None, ProbeAddressBook, ())
+        .await
+        .expect("spawn probe address book");
+    let address_book = AddressBook::verif_from_actor(actor_ref);
+    probe_gossip(my_node_id, address_book, config, broadcast_capacity).await
+}
+
+/// Creates a `Gossip` API instance whose manager is the probe actor (spawned on the current tokio
+/// runtime).
+pub async fn probe_gossip(
+    my_node_id: NodeId,
+    address_book: AddressBook,
+    config: GossipConfig,
+    broadcast_capacity: usize,
+) -> (Gossip, Probe) {
+    let probe: Probe = Arc::new(Mutex::new(ProbeState {
+        broadcast_capacity,
+        ..ProbeState::default()
+    }));
+    let (actor_ref, _) = Actor::spawn(None, ProbeManager, probe.clone())
+        .await
+        .expect("spawn probe manager");
+    (
+        Gossip::new(actor_ref, my_node_id, address_book, config),
+        probe,
+    )
+}
